@@ -58,6 +58,27 @@ func withVersion(b []byte, v byte) []byte {
 	return o
 }
 
+// tracked is a caller-owned input buffer: the bytes handed to a decoder or setter, followed by spare
+// capacity filled with a sentinel. A callee may read it; it must leave both parts alone (a decoder
+// that byte-swaps in place, or appends to its argument, changes the caller's data).
+type tracked struct{ buf, orig []byte }
+
+func track(in []byte) *tracked {
+	full := make([]byte, len(in)+8)
+	copy(full, in)
+	for i := len(in); i < len(full); i++ {
+		full[i] = 0xA5
+	}
+	return &tracked{buf: full[:len(in):len(full)], orig: append([]byte{}, full...)}
+}
+
+func (k *tracked) untouched(subject string, fs *[]vf.Finding) {
+	if now := k.buf[:cap(k.buf)]; !bytes.Equal(now, k.orig) {
+		n := len(k.buf)
+		*fs = append(*fs, vf.F(subject, "callee-modifies-callers-input", "input %x (spare capacity %x) is %x (%x) after the call", k.orig[:n], k.orig[n:], now[:n], now[n:]))
+	}
+}
+
 // all five text groups carry a set bit
 func nontrivialVal(c valCase) bool {
 	b := c.B
@@ -108,7 +129,9 @@ type uuidLike interface {
 func checkUUIDOne(name string, mk func() uuidLike, in []byte, mustAccept bool, cs int) []vf.Finding {
 	var fs []vf.Finding
 	u := mk()
-	n, err := u.Unmarshal(append([]byte{}, in...))
+	arg := track(in)
+	n, err := u.Unmarshal(arg.buf)
+	arg.untouched(name+".Unmarshal", &fs)
 	if err != nil {
 		if mustAccept {
 			fs = append(fs, vf.F(name+".Unmarshal", "valid-value-rejected", "%x: %v", in, err))
@@ -130,6 +153,17 @@ func checkUUIDOne(name string, mk func() uuidLike, in []byte, mustAccept bool, c
 	out2, _ := u.Marshal()
 	if !bytes.Equal(out, out2) {
 		fs = append(fs, vf.F(name+".Marshal", "not-repeatable", "%x then %x", out, out2))
+	}
+	// the exact-length decoder of the versioned types
+	if fb, ok := mk().(interface{ FromBytes([]byte) error }); ok {
+		arg := track(in)
+		err := fb.FromBytes(arg.buf)
+		arg.untouched(name+".FromBytes", &fs)
+		if err != nil {
+			fs = append(fs, vf.F(name+".FromBytes", "valid-value-rejected", "%x: %v", in, err))
+		} else if o, _ := fb.(uuidLike).Marshal(); !bytes.Equal(o, in) {
+			fs = append(fs, vf.F(name+".FromBytes", "marshal-unmarshal-not-identity", "%x -> %x", in, o))
+		}
 	}
 	want := canon(in)
 	if got := u.String(); got != want {
@@ -192,8 +226,11 @@ func checkRFCFields(c valCase) []vf.Finding {
 	tsRef := uint64(binary.BigEndian.Uint16(b[6:8])&0x0FFF)<<48 | uint64(binary.BigEndian.Uint16(b[4:6]))<<32 | uint64(binary.BigEndian.Uint32(b[0:4]))
 	csRef := uint16(b[8]&0x3F)<<8 | uint16(b[9])
 	u := &uuid_v1.UUIDv1{}
-	if err := u.FromBytes(b); err != nil {
-		return []vf.Finding{vf.F("uuid_v1.FromBytes", "valid-value-rejected", "%x: %v", b, err)}
+	arg := track(b)
+	err := u.FromBytes(arg.buf)
+	arg.untouched("uuid_v1.FromBytes", &fs)
+	if err != nil {
+		return append(fs, vf.F("uuid_v1.FromBytes", "valid-value-rejected", "%x: %v", b, err))
 	}
 	if u.Time != tsRef {
 		fs = append(fs, vf.F("UUIDv1.Time", "timestamp-differs-from-rfc4122", "%x: got %#x want %#x", b, u.Time, tsRef))
@@ -231,6 +268,8 @@ type v1Fields struct {
 	Node     vf.Hex `json:"node"`
 	Variant  uint8  `json:"variant"`
 	UnixNs   int64  `json:"unix_ns_100"` // multiple of 100, within 1700..2200
+	// seconds east of UTC of the Location the time value carries (SetTime is defined on the instant)
+	Zone int `json:"zone_offset_s,omitempty"`
 }
 
 func checkV1Fields(c v1Fields) []vf.Finding {
@@ -239,13 +278,16 @@ func checkV1Fields(c v1Fields) []vf.Finding {
 	u.Time = c.Time
 	u.SetClockSequence(c.ClockSeq)
 	u.Variant = c.Variant
-	if err := u.SetNodeID(c.Node); err != nil {
-		return []vf.Finding{vf.F("UUIDv1.SetNodeID", "six-byte-node-rejected", "%v", err)}
+	node := track(c.Node)
+	err := u.SetNodeID(node.buf)
+	node.untouched("UUIDv1.SetNodeID", &fs)
+	if err != nil {
+		return append(fs, vf.F("UUIDv1.SetNodeID", "six-byte-node-rejected", "%v", err))
 	}
 	txt := u.String()
 	p := &uuid_v1.UUIDv1{}
 	if err := p.FromString(txt); err != nil {
-		return []vf.Finding{vf.F("UUIDv1.FromString", "own-text-rejected", "%q: %v", txt, err)}
+		return append(fs, vf.F("UUIDv1.FromString", "own-text-rejected", "%q: %v", txt, err))
 	}
 	if p.Time != c.Time {
 		fs = append(fs, vf.F("UUIDv1.Time", "field-not-preserved", "%#x -> %q -> %#x", c.Time, txt, p.Time))
@@ -265,7 +307,10 @@ func checkV1Fields(c v1Fields) []vf.Finding {
 	}
 	// timestamp through Go time (mid-range only; the extremes belong to C15)
 	w := &uuid_v1.UUIDv1{}
-	tm := time.Unix(0, c.UnixNs)
+	tm := time.Unix(0, c.UnixNs).UTC()
+	if c.Zone != 0 {
+		tm = tm.In(time.FixedZone("", c.Zone))
+	}
 	w.SetTime(tm)
 	q := &uuid_v1.UUIDv1{}
 	if err := q.FromString(w.String()); err != nil {
@@ -286,6 +331,17 @@ func genUnixNs100(t *rapid.T) int64 {
 	return rapid.Int64Range(lo, hi).Draw(t, "unix100") * 100
 }
 
+// UTC in a third of the cases, otherwise an offset in use today or any offset within +-14 h
+func genZoneOffset(t *rapid.T) int {
+	switch rapid.IntRange(0, 2).Draw(t, "zoneClass") {
+	case 0:
+		return 0
+	case 1:
+		return rapid.SampledFrom([]int{3600, -18000, 19800, -12600, 20700, 50400, -43200}).Draw(t, "zoneKnown")
+	}
+	return rapid.IntRange(-14*3600, 14*3600).Draw(t, "zoneSeconds")
+}
+
 func TestUUIDv1Fields(t *testing.T) {
 	s := vf.Begin(t, P, "uuidv1-fields")
 	vf.Rapid(s, vf.N(20000, 300000), func(t *rapid.T) v1Fields {
@@ -295,6 +351,7 @@ func TestUUIDv1Fields(t *testing.T) {
 			Node:     rapid.SliceOfN(rapid.Byte(), 6, 6).Draw(t, "node"),
 			Variant:  uint8(rapid.IntRange(0, 15).Draw(t, "variant")),
 			UnixNs:   genUnixNs100(t),
+			Zone:     genZoneOffset(t),
 		}
 	}, checkV1Fields, func(c v1Fields) bool { return c.Time>>48 != 0 && c.ClockSeq > 0xFF })
 }
@@ -315,12 +372,14 @@ func checkV2Fields(c v2Fields) []vf.Finding {
 	u.SetLocalDomainNumber(c.LDN)
 	u.SetClock(c.Clock)
 	u.SetLocalDomain(c.LD)
-	u.SetNodeID(c.Node)
+	node := track(c.Node)
+	u.SetNodeID(node.buf)
+	node.untouched("UUIDv2.SetNodeID", &fs)
 	u.Variant = c.Variant
 	txt := u.String()
 	p := &uuid_v2.UUIDv2{}
 	if err := p.FromString(recase(txt, int(c.LD)%3)); err != nil {
-		return []vf.Finding{vf.F("UUIDv2.FromString", "own-text-rejected", "%q: %v", txt, err)}
+		return append(fs, vf.F("UUIDv2.FromString", "own-text-rejected", "%q: %v", txt, err))
 	}
 	if p.Time != u.Time {
 		fs = append(fs, vf.F("UUIDv2.Time", "field-not-preserved", "%#x -> %q -> %#x", u.Time, txt, p.Time))
@@ -370,12 +429,14 @@ type v8Fields struct {
 func checkV8Fields(c v8Fields) []vf.Finding {
 	var fs []vf.Finding
 	u := &uuid_v8.UUIDv8{}
-	u.SetData(c.Data)
+	data := track(c.Data)
+	u.SetData(data.buf)
+	data.untouched("UUIDv8.SetData", &fs)
 	u.Variant = c.Variant
 	txt := u.String()
 	p := &uuid_v8.UUIDv8{}
 	if err := p.FromString(txt); err != nil {
-		return []vf.Finding{vf.F("UUIDv8.FromString", "own-text-rejected", "%q: %v", txt, err)}
+		return append(fs, vf.F("UUIDv8.FromString", "own-text-rejected", "%q: %v", txt, err))
 	}
 	if !bytes.Equal(p.GetData(), c.Data) {
 		fs = append(fs, vf.F("UUIDv8.Data", "field-not-preserved", "%x -> %q -> %x", c.Data, txt, p.GetData()))
@@ -448,12 +509,16 @@ func checkGUID(c valCase) []vf.Finding {
 	var fs []vf.Finding
 	raw := []byte(c.B)
 	g := &guid.GUID{}
-	g.FromRawBytes(append([]byte{}, raw...))
+	arg := track(raw)
+	g.FromRawBytes(arg.buf)
+	arg.untouched("GUID.FromRawBytes", &fs)
 	if out := g.ToBytes(); !bytes.Equal(out, raw) {
 		fs = append(fs, vf.F("GUID.ToBytes", "bytes-roundtrip-differs", "%x -> %+v -> %x", raw, *g, out))
 	}
 	var ds data_structures.GUID
-	ds.FromRawBytes(append([]byte{}, raw...))
+	arg = track(raw)
+	ds.FromRawBytes(arg.buf)
+	arg.untouched("data_structures.GUID.FromRawBytes", &fs)
 	if !ds.Equal(g) {
 		fs = append(fs, vf.F("data_structures.GUID", "alias-disagrees", "%x", raw))
 	}
@@ -615,4 +680,133 @@ func TestReceiverReuse(t *testing.T) {
 		}
 		return reuseCase{X: x, Y: y}
 	}, checkReuse, func(c reuseCase) bool { return !bytes.Equal(c.X, c.Y) && !bytes.Equal(c.Y, make([]byte, 16)) })
+}
+
+// ---- results are values of their own -----------------------------------------------------------
+//
+// "Formatting reproduces the input" is a statement about the value a caller holds, and a caller
+// holds it for as long as it likes: the bytes / text obtained for value x must still be x's after
+// any other value y has been decoded, marshalled and formatted (a formatter that fills one shared
+// scratch buffer and hands out slices of it satisfies every single-value round trip).
+
+type keptResult struct {
+	who  string
+	live func() []byte // the result as it is now
+	snap []byte        // private copy taken when it was produced
+}
+
+func keepBytes(who string, b []byte) keptResult {
+	return keptResult{who, func() []byte { return b }, append([]byte{}, b...)}
+}
+
+// strings are kept the same way: the snapshot is a copy with its own memory, so a formatter that
+// builds its string over reused storage is seen as well.
+func keepText(who string, s string) keptResult {
+	return keptResult{who, func() []byte { return []byte(s) }, []byte(strings.Clone(s))}
+}
+
+func checkIndependence(c reuseCase) []vf.Finding {
+	var fs []vf.Finding
+	x, y := []byte(c.X), []byte(c.Y)
+	var kept []keptResult
+
+	// results for x ...
+	gx := &guid.GUID{}
+	gx.FromRawBytes(append([]byte{}, x...))
+	kept = append(kept, keepBytes("GUID.ToBytes", gx.ToBytes()))
+	for i := range fmtNames {
+		kept = append(kept, keepText("GUID.ToFormat"+fmtNames[i], toFormat(gx, i)))
+	}
+	types := []struct {
+		name string
+		mk   func() uuidLike
+		ver  byte
+	}{
+		{"uuid.UUID", func() uuidLike { return &uuid.UUID{} }, 0xFF},
+		{"uuid_v1.UUIDv1", func() uuidLike { return &uuid_v1.UUIDv1{} }, 1},
+		{"uuid_v2.UUIDv2", func() uuidLike { return &uuid_v2.UUIDv2{} }, 2},
+		{"uuid_v8.UUIDv8", func() uuidLike { return &uuid_v8.UUIDv8{} }, 8},
+	}
+	for _, v := range types {
+		xv := x
+		if v.ver != 0xFF {
+			xv = withVersion(x, v.ver)
+		}
+		u := v.mk()
+		if _, err := u.Unmarshal(append([]byte{}, xv...)); err != nil {
+			continue // acceptance is judged by the other sub-checks
+		}
+		if out, err := u.Marshal(); err == nil {
+			kept = append(kept, keepBytes(v.name+".Marshal", out))
+		}
+		kept = append(kept, keepText(v.name+".String", u.String()))
+		if g, ok := u.(interface{ GetNodeID() []byte }); ok {
+			kept = append(kept, keepBytes(v.name+".GetNodeID", g.GetNodeID()))
+		}
+		if g, ok := u.(interface{ GetData() []byte }); ok {
+			kept = append(kept, keepBytes(v.name+".GetData", g.GetData()))
+		}
+	}
+
+	// ... then the whole life of an unrelated value y in other variables ...
+	gy := &guid.GUID{}
+	gy.FromRawBytes(append([]byte{}, y...))
+	_ = gy.ToBytes()
+	for i := range fmtNames {
+		txt := toFormat(gy, i)
+		if p, err := fromFormat(txt, i); err == nil && p != nil {
+			_ = p.ToBytes()
+		}
+		if p, err := guid.FromString(txt); err == nil && p != nil {
+			_ = p.ToFormatD()
+		}
+	}
+	for _, v := range types {
+		yv := y
+		if v.ver != 0xFF {
+			yv = withVersion(y, v.ver)
+		}
+		u := v.mk()
+		if _, err := u.Unmarshal(append([]byte{}, yv...)); err != nil {
+			continue
+		}
+		u.Marshal()
+		txt := u.String()
+		w := v.mk()
+		if w.FromString(txt) == nil {
+			w.Marshal()
+			_ = w.String()
+		}
+		if g, ok := u.(interface{ GetNodeID() []byte }); ok {
+			_ = g.GetNodeID()
+		}
+		if g, ok := u.(interface{ GetData() []byte }); ok {
+			_ = g.GetData()
+		}
+	}
+
+	// ... and x's results are what they were.
+	for _, k := range kept {
+		if now := k.live(); !bytes.Equal(now, k.snap) {
+			fs = append(fs, vf.F(k.who, "result-changes-when-another-value-is-processed", "result for %x was %q, is %q after processing %x", x, k.snap, now, y))
+		}
+	}
+	return fs
+}
+
+func TestResultIndependence(t *testing.T) {
+	s := vf.Begin(t, P, "result-independence")
+	vf.Rapid(s, vf.N(6000, 90000), func(t *rapid.T) reuseCase {
+		x := rapid.SliceOfN(rapid.Byte(), 16, 16).Draw(t, "x")
+		var y []byte
+		if rapid.Bool().Draw(t, "complement") {
+			y = make([]byte, 16)
+			for i := range y {
+				y[i] = ^x[i]
+			}
+		} else {
+			y = rapid.SliceOfN(rapid.Byte(), 16, 16).Draw(t, "y")
+		}
+		return reuseCase{X: x, Y: y}
+	}, checkIndependence, func(c reuseCase) bool { return !bytes.Equal(c.X, c.Y) })
 }
